@@ -62,21 +62,27 @@ def setup_self(eng, st):
 
 
 def setup_add(eng, st):
-    return dict(self=setup_self(eng, st), key=SVal(z3.Const('key', Val)))
+    return dict(self=setup_self(eng, st), key=SVal(z3.Const('arg_key', Val)))
 
 
 def add_requires(c):
     return wf(c, c.st, c.g('true'), c.st.alloc)
 
 
+def add_ghost_exit(c, outcome):
+    true0 = c.og('true')
+    return dict(true=z3.Store(true0, c.a('key'), z3.Select(true0, c.a('key')) + 1))
+
+
 def add_ensures(c):
     key = c.a('key')
     true0 = c.og('true')
-    true1 = z3.Store(true0, key, z3.Select(true0, key) + 1)
+    true1 = c.g('true')
     po, pn = parts(c, c.old), parts(c, c.st)
     k = z3.Const('k', Val)
     cell = z3.Select(pn['val'], k)
-    out = [('total counts additions', pn['total'] == po['total'] + 1),
+    out = [('ghost: the true count of key grows by one', true1 == z3.Store(true0, key, z3.Select(true0, key) + 1)),
+           ('total counts additions', pn['total'] == po['total'] + 1),
            ('threshold constant', pn['w'] == po['w'])]
     out += [('wf.' + l, b) for l, b in wf(c, c.st, true1, c.st.alloc)]
     # the property clauses themselves, stated over the new state (consequences of wf, proved separately)
@@ -109,6 +115,8 @@ def add_hints(c, event, data):
 
 add = Contract('ThresholdCounter.add', setup=setup_add, requires=add_requires, ensures=add_ensures,
                modifies=add_modifies, hints=add_hints)
+add.ghost_exit = add_ghost_exit
+add.ghost_mod = ['true']
 
 
 # ---- readers ------------------------------------------------------------------------------------------
@@ -117,7 +125,7 @@ def reader_requires(c):
 
 
 def setup_key(eng, st):
-    return dict(self=setup_self(eng, st), key=SVal(z3.Const('key', Val)))
+    return dict(self=setup_self(eng, st), key=SVal(z3.Const('arg_key', Val)))
 
 
 def getitem_ensures(c):
@@ -141,7 +149,7 @@ getitem = Contract('ThresholdCounter.__getitem__', setup=setup_key, requires=rea
 
 
 def setup_get(eng, st):
-    return dict(self=setup_self(eng, st), key=SVal(z3.Const('key', Val)), default=SInt(z3.Int('default')))
+    return dict(self=setup_self(eng, st), key=SVal(z3.Const('arg_key', Val)), default=SInt(z3.Int('default')))
 
 
 def get_ensures(c):
@@ -173,3 +181,103 @@ length = Contract('ThresholdCounter.__len__', setup=lambda eng, st: dict(self=se
                   requires=reader_requires, ensures=len_ensures, modifies=NO_MOD)
 
 CONTRACTS = {c.qualname: c for c in [add, getitem, get, contains, length]}
+
+
+# ---- update: an iterable of keys / a mapping key -> count / keyword counts -------------------------------------------------------------
+from pyvc.values import SSeq, SFunc, STuple  # noqa: E402
+CountArg = HeapClass('TCCountArg', 'dict', k=VAL, v=INT)
+ALL.append(CountArg)
+ValArr = z3.ArraySort(z3.IntSort(), Val)
+
+
+def upd_setup(eng, st, variant):
+    self = setup_self(eng, st)
+    kw = SRef(CountArg, z3.Int('arg_kwargs'))
+    if variant == 'keys':
+        it = SSeq(VAL, z3.Const('arg_keys', ValArr), z3.Int('n_keys'))
+    elif variant == 'mapping':
+        it = SRef(CountArg, z3.Int('arg_mapping'))
+    else:
+        it = SNone()
+    return dict(self=self, iterable=it, kwargs=kw)
+
+
+def upd_requires(c):
+    kw = c.sv('kwargs')
+    out = wf(c, c.st, c.g('true'), c.st.alloc)
+    it = c.sv('iterable')
+    if isinstance(kw, SRef):        # (at the recursive call site update(kwargs) the callee's **kwargs is empty and opaque)
+        out.append(('kwargs is a dict object', z3.And(kw.t >= 1, kw.t < c.st.alloc, c.f(kw, 'size') >= 0)))
+        if c.eng.variant != 'kwargs':
+            out.append(('no keyword counts in this variant', c.f(kw, 'size') == 0))
+        if isinstance(it, SRef):
+            out.append(('mapping is a dict object distinct from kwargs', it.t != kw.t))
+    if isinstance(it, SRef):
+        out.append(('mapping is a dict object', z3.And(it.t >= 1, it.t < c.st.alloc)))
+    if isinstance(it, SSeq):
+        out.append(('finite iterable', it.n >= 0))
+    return out
+
+
+def upd_common(c, st=None):
+    po, pn = parts(c, c.old), parts(c, st or c.st)
+    k = z3.Const('kq', Val)
+    return [('wf.' + l, f) for l, f in wf(c, st or c.st, c.g('true', st), (st or c.st).alloc)] + [
+        ('threshold constant, total and true counts never decrease', z3.And(
+            pn['w'] == po['w'], pn['total'] >= po['total'],
+            z3.ForAll([k], z3.Select(c.g('true', st), k) >= z3.Select(c.og('true'), k))))]
+
+
+def upd_keys_inv(c):
+    po, pn = parts(c, c.old), parts(c)
+    return upd_common(c) + [('one addition per key consumed', pn['total'] == po['total'] + c.x['i'])]
+
+
+def upd_outer_inv(c):
+    return upd_common(c)
+
+
+def upd_inner_inv(c):
+    e = c.x['loop_entry']
+    pe, pn = parts(c, e), parts(c)
+    key = c.L('key')
+    i = c.x['i']
+    return upd_common(c) + [('key added i times so far in this run', z3.And(
+        pn['total'] == pe['total'] + i, c.g('true') == z3.Store(e.ghost['true'], key, z3.Select(e.ghost['true'], key) + i)))]
+
+
+def upd_ensures(c):
+    po, pn = parts(c, c.old), parts(c)
+    out = upd_common(c)
+    it = c.sv('iterable')
+    if isinstance(it, SSeq) and c.eng.variant == 'keys':
+        out.append(('total grows by the number of keys', pn['total'] == po['total'] + it.n))
+    return out
+
+
+def ext_getattr_tc(eng, args, kwargs, st, node):
+    obj, attr = args[0], args[1]
+    if isinstance(obj, SRef) and obj.cls.name == 'TCCountArg' and attr == 'items':
+        return [(SFunc('method', obj, 'items'), st)]
+    if isinstance(obj, SSeq):
+        return [(args[2] if len(args) > 2 else SNone(), st)]
+    return None
+
+
+UPD_MOD = add_modifies
+update = Contract('ThresholdCounter.update', setup=upd_setup, requires=upd_requires, ensures=upd_ensures, modifies=UPD_MOD,
+                  variants=['keys', 'mapping', 'kwargs'],
+                  loops={0: Loop(upd_outer_inv, heap=add_modifies(None), ghost=['true']),
+                         1: Loop(upd_keys_inv, heap=add_modifies(None), ghost=['true']),
+                         2: Loop(upd_inner_inv, heap=add_modifies(None), ghost=['true'])})
+update.ghost_mod = ['true']
+CONTRACTS['ThresholdCounter.update'] = update
+EXTERNALS = {'getattr': ext_getattr_tc}
+
+
+def make_engine(repo):
+    from pyvc.engine import Engine
+    eng = Engine(repo, FILE, classes=CLASSES, contracts=CONTRACTS, externals=dict(EXTERNALS))
+    for c in ALL:
+        eng.register_class(c)
+    return eng
